@@ -281,6 +281,13 @@ func s6b(scen, cfg string, quick, thorough int) Batch {
 		Stub: []string{"the os / io/ioutil call path of packages cmd and codegen/utils (sim/simos: counted, monitored, one call per process failed / torn / crashed)", "Go map iteration order at every range-over-map site of the v2 module (sim/simrt)"}}
 }
 
+// s6c: one generation of a manifest in canonical order, compiled against the runtime
+func s6c(m string) Batch {
+	b := s6b("gencompile", "m="+m, 1, 2)
+	b.Workers = 1
+	return b
+}
+
 func init() {
 	reg(&PropSpec{
 		ID: "C20",
@@ -294,10 +301,12 @@ func init() {
 	reg(&PropSpec{
 		ID: "C12",
 		Batches: []Batch{
+			s6c("family"),
+			s6c("small"),
 			s6b("gendet", "", 600, 60000),
 			s6b("genfs", "faults=1,order=1,c12=1", 800, 80000),
 		},
-		Rule:   "determinism: each run generates one of {small manifest, binding family (12 types, 10 resources incl. sub-resources, simple resource, action set, complex key, union, includes, defaults), the checked-in v2/restlidata manifest} in a fresh generator process whose range-over-map sites iterate in an order drawn from the run's seed, and compares the tree byte for byte with the canonical-order generation; the restlidata tree is also compared with the checked-in *.gr.go files; second batch: regeneration over crashed / half-cleaned directories converges to the same tree. The generated family is compiled and vetted once per check. Distinct by (manifest, order seed).",
+		Rule:   "determinism: each run generates one of {small manifest, binding family (12 types, 10 resources incl. sub-resources, simple resource, action set, complex key, union, includes, defaults), the checked-in v2/restlidata manifest} in a fresh generator process whose range-over-map sites iterate in an order drawn from the run's seed, and compares the tree byte for byte with the canonical-order generation; the restlidata tree is also compared with the checked-in *.gr.go files (byte for byte; when the bytes differ, equivalence is judged on compiled code: exported API listing, then a differential test of JSON/ROR2 encodings, hashes, Equals and decodings over every exported type); third batch: regeneration over crashed / half-cleaned directories converges to the same tree. First two batches: the family and the small manifest are generated and compiled against the runtime (go build). Distinct by (manifest, order seed).",
 		Assume: []string{"totality and compilability over the whole schema / resource grammar (and cyclic or clashing namespaces) is program enumeration and is not claimed; the family bounds what is compiled", "map ranges keyed by pointers cannot be ordered reproducibly and keep Go's own order (counted in the evidence as map-range-with-uncontrolled-key-type)", "sampled exploration"},
 	})
 }
